@@ -223,7 +223,7 @@ func runOneMatrix(c mxCase, base string, idx int) (sx.V, sx.V) {
 			class = 3
 			return
 		}
-		caller := raw.(vp.Caller)
+		caller := bounded(raw.(vp.Caller))
 		if out, err := caller.Call(vp.Req{Op: "tag"}); err != nil || out.S != "set-1" {
 			class = 3
 			return
@@ -244,12 +244,22 @@ func runOneMatrix(c mxCase, base string, idx int) (sx.V, sx.V) {
 					class = 3
 					return
 				}
-				w, err := vp.NewGRPCCaller(cc, gb).Call(vp.Req{Op: "who"})
-				cc.Close()
+				bc := vp.Bounded(vp.NewGRPCCaller(cc, gb), callBound)
+				w, err := bc.Call(vp.Req{Op: "who"})
 				if err != nil || w.ID != 77 {
+					cc.Close()
 					class = 3
 					return
 				}
+				// a pair that was asked for transport security must have it on the brokered connection too
+				if c.HTLS != 0 {
+					if sec, err := bc.Call(vp.Req{Op: "peer-tls"}); err != nil || sec.S != "tls" {
+						cc.Close()
+						class = 6
+						return
+					}
+				}
+				cc.Close()
 			} else if mb := caller.Mux(); mb != nil {
 				conn, err := mb.Dial(77)
 				if err != nil {
